@@ -6,7 +6,9 @@ import (
 	"fmt"
 	"sort"
 	"strings"
+	"sync"
 	"testing"
+	"time"
 
 	"github.com/spikeekips/mitum/base"
 	"github.com/spikeekips/mitum/isaac"
@@ -168,8 +170,11 @@ func c08build(e *c08env, s c08scenario, ballots map[string]base.Ballot) vsched.S
 		panic(err)
 	}
 	var sent []c08sent
+	var sentMu sync.Mutex // REAL mutex (this file is not instrumented): uncontended under the scheduler; needed in the free-running -race pass
 	bb := NewDefaultBallotBroadcaster(e.local.Address(), pool, func(bl base.Ballot) error {
+		sentMu.Lock()
 		sent = append(sent, c08sent{key: c08key(bl), fact: bl.SignFact().Fact().Hash().String(), signer: bl.SignFact().Node().String()})
+		sentMu.Unlock()
 		return nil
 	})
 	args := NewStatesArgs()
@@ -349,4 +354,32 @@ func TestVerifC08(t *testing.T) {
 		}
 		r.Sample(map[string]any{"scenario": id, "executions": res.Executions, "distinct_outcomes": len(res.Outcomes)})
 	}
+}
+
+// TestVerifC08Race: free-running pass of the scenario bodies under `go test -race` (thorough tier only); checks
+// the assumption that lock operations are the only interaction points on the mimic-ballot path. Never a verdict.
+func TestVerifC08Race(t *testing.T) {
+	r := vlib.Start("C08")
+	defer r.Finish()
+	e := c08newEnv()
+	n := 0
+	for _, kind := range []string{"init", "confirm", "accept"} {
+		s := c08scenario{state: StateSyncing, delivers: [][]c08spec{{{kind, 33, 0, "A", 0}}, {{kind, 33, 0, "B", 1}}, {{kind, 33, 0, "C", 2}}}, rebroadcast: true}
+		ballots := map[string]base.Ballot{}
+		for _, d := range s.delivers {
+			for _, spec := range d {
+				ballots[spec.String()] = e.ballot(spec)
+			}
+		}
+		for rep := 0; rep < 40; rep++ {
+			sc := c08build(e, s, ballots)
+			if !vsched.RunNative(20*time.Second, sc.Roots...) {
+				t.Fatalf("free-running scenario %s did not finish", s.id())
+			}
+			time.Sleep(time.Millisecond) // let the mimic vote goroutine finish
+			_ = sc.Check(&vsched.Exec{})
+			n++
+		}
+	}
+	r.Add("race_pass_free_running_executions", int64(n))
 }
